@@ -209,7 +209,7 @@ META = {
     "bounds": {"quick": "6 pairs of single operations on one or two shared stores, 2 threads, preemption bound 1, line granularity, values 0..64 (metabolic-state update cut out); 3 pairs with the real _update_state, capacities 8/0/0/4, symbolic balances, each store's metabolic state part of the compared outcome",
                "thorough": "12 pairs with preemption bound 2; 3 threads x 1 op and 2+1 ops with bound 1"},
     "outside": ["atomicity of transfer_to as a whole: by design it is two lock-protected units (withdraw, then the peer's regenerate); sequential orders interleave those units", "more than P preemptions", "preemption inside a source line", "background regeneration thread", "on_state_change re-entrancy", "threads doing 3 operations each"],
-    "float_argument": "F-cmp: in the state jobs the thresholds 0.1/0.3/0.9 are compared with exact rationals k/8 - (d/8)/2; none of those lies on a threshold's float neighbourhood except exact ties, which the rational and the float comparison decide alike for these denominators (path witnesses re-check every 19th path concretely)",
+    "float_argument": "F-indep for the 6 cut pairs (state not compared). State jobs: with capacity 8 the ratio is a multiple of 1/16, exactly representable, and never equal to the thresholds 1/10, 3/10, 9/10, so the float comparison and the exact rational comparison agree on every value (path witnesses re-check concretely)",
     "assumptions": ["stores start in state NORMAL with arbitrary balances (gtp<=max_gtp, nadh<=max_nadh)", "lock shims of the constructed kind; scheduler serialises threads"],
     "must_cover": [("operon_ai/state/metabolism.py", "other.regenerate(amount, energy_type)"),
                    ("operon_ai/state/metabolism.py", "self.atp -= cost")],
